@@ -443,6 +443,15 @@ func (c *Float) Ident() string {
 			}
 			return fmt.Sprintf("0x%c%016X%016X", hexPrefix, a, b)
 		}
+		if c.X.IsInf() {
+			// float128ppc.NewFromBig returns +Inf for both infinities (the NegInf
+			// value of that package is positive).
+			sign := 1
+			if c.X.Signbit() {
+				sign = -1
+			}
+			return fmt.Sprintf("0x%c%016X%016X", hexPrefix, math.Float64bits(math.Inf(sign)), 0)
+		}
 		f, acc := float128ppc.NewFromBig(c.X)
 		if acc != big.Exact {
 			log.Printf("unable to represent floating-point constant %v of type %v exactly; please submit a bug report to llir/llvm with this error message", c.X, c.Typ)
